@@ -302,6 +302,7 @@ def run(ck):
     wsp_streams(ck)
     multi_sessions(ck)
     effects_stream(ck)
+    timeout_stream(ck)
 
     return ck.finish(
         rule="(a) random request sequences of length 1..12 (thorough 1..16) biased along the DESCRIBE/SETUP/PLAY and ANNOUNCE/SETUP/RECORD "
@@ -642,3 +643,53 @@ def effects_stream(ck):
     ck.extra["publisher_effects_with_consumers"] = created
     if obs and created < len(cases) // 4:
         ck.broken.append(Broken("C12 publisher-effects: consumers were attached to a published stream in only %d of %d cases" % (created, len(cases))))
+
+
+# ---------------------------------------------------------------- the read deadline
+TMO = 400   # ms: config.NetTimeout for this stream
+
+def gen_timeout(rng):
+    """requests and waits of 2-3 time-outs.  While the flow has not reached a successful PLAY the session is
+    idle and a wait must end it (the harness keeps listening for the close with a generous patience); after
+    the PLAY the session must survive every wait and still answer"""
+    env = [[LIVE_A, 1, False]]
+    evs = []
+    n = 0
+    def rq(m, **kw):
+        nonlocal n
+        n += 1
+        return [0, req(m, n, LIVE_A, **kw)]
+    big = lambda: rng.choice([2, 2.5, 3]) * TMO
+    kind = rng.random()
+    if kind < 0.55:      # a playing session survives
+        flow = [rq(DESCRIBE), rq(SETUP, ctl="streamid=0", transport=rng.choice([T_TCP, T_UDP])), rq(PLAY)]
+        if rng.random() < 0.3:
+            flow.insert(0, rq(OPTIONS))
+        evs += flow
+        for _ in range(rng.randint(1, 2)):
+            evs.append([1, int(big()), 0])
+            evs.append(rq(rng.choice([OPTIONS, PLAY, GET_PARAMETER])))
+        if rng.random() < 0.5:
+            evs.append(rq(TEARDOWN))
+    else:                # an idle session (init / ready / recording) is dropped
+        flow = rng.choice([[], [rq(OPTIONS)], [rq(DESCRIBE)], [rq(DESCRIBE), rq(SETUP, ctl="streamid=0", transport=T_TCP)],
+                           [rq(DESCRIBE), rq(SETUP, ctl="streamid=0", transport=T_TCP), rq(PLAY), rq(TEARDOWN)]])
+        evs += flow
+        evs.append([1, int(big()), 4000])
+        evs.append(rq(OPTIONS))
+    return [env, TMO, evs]
+
+
+def timeout_stream(ck):
+    rng = ck.rng
+    n = 200 if ck.thorough else 10
+    cases = [gen_timeout(rng) for _ in range(n)]
+    obs = ck.stream("read-deadline", cases, None, "C12_timeout", "C12_timeout_ok", compare=False,
+                    nontrivial=lambda c: any(e[0] == 1 for e in c[2]), sig=lambda c, e, o: "read-deadline", timeout=1500)
+    cut = 0
+    for o in obs:
+        try:
+            cut += vparse(o)[1] != b""
+        except Exception:
+            pass
+    ck.extra["read_deadline_unevaluated"] = cut
